@@ -32,6 +32,7 @@ e07ea76 C18
 f5b320c C18
 ddb7a7f C18
 5353f3f C18
+78eb247 C01
 LIST
 mv $OUT.tmp $OUT
 python3 lib/seeded_meta.py >/dev/null
